@@ -255,6 +255,32 @@ def run(ctx):
     from .c09 import load_file_identity_rule
     load_file_identity_rule(ctx, program, "R11.8")
 
+    # R11.9 legacy triggers are built in (and registered with) the context of the file that applies the decorators -------------
+    ctx.rule("R11.9", "legacy trigger_init builds the trigger and registers the function with the context that applied the decorators, not with the context the function body was defined in", floor=2)
+    ti_uid = "eval.py::EvalFunc.trigger_init"
+    seen = []
+
+    class _RecvPolicy(FlowPolicy):
+        def call(self, interp, node, fname, fval, args, kwargs, cfg, out):
+            if isinstance(fval, FuncV) and fval.name.split(".")[-1] in ("get_trig_info", "trigger_register"):
+                seen.append((fval.name.split(".")[-1], getattr(fval.recv, "oid", None)))
+                return [(cfg, ObjV("ti", "TrigInfo") if "get_trig_info" in fval.name else Const(False))]
+            return super().call(interp, node, fname, fval, args, kwargs, cfg, out)
+
+    glob = {"TRIG_SERV_DECORATORS": ListV(tuple(Const(x) for x in ("service", "state_trigger", "event_trigger", "time_trigger", "mqtt_trigger", "webhook_trigger", "state_active",
+                                                                   "time_active", "task_unique")), "set")}
+    pol = _RecvPolicy(program, may_raise_all=False, cancel=False, globals_=glob, summaries={"trig_ctx.get_name": lambda i, n, a, k, c, o: [(c, Const("file.user"))]})
+    pol.loop_unroll = 3
+    dec = ListV((Const("state_trigger"), ListV((Const("d.e == limit"),), "list"), Const(None)), "list")
+    heap = {"self.trigger_service": ListV((), "set"), "self.trigger": ListV((), "list"), "self.decorators": ListV((dec,), "list"), "self.doc_string": Const("doc"),
+            "self.global_ctx": ObjV("defining_ctx", "GlobalContext"), "defining_ctx.global_sym_table": DictV([])}
+    out = run_flow(program, ti_uid, pol, args={"self": ObjV("self", "EvalFunc"), "trig_ctx": ObjV("decorating_ctx", "GlobalContext"), "func_name": Const("f")}, heap=heap)
+    for what in ("get_trig_info", "trigger_register"):
+        recvs = sorted({r for w, r in seen if w == what})
+        ctx.check(recvs == ["decorating_ctx"] and bool(exits(out)), "R11.9", ti_uid, f"{what} called on the decorating context",
+                  msg=f"trigger_init calls {what} on {recvs} (scenario: the function was defined in a module - 'defining_ctx' - and is decorated in the user's file - 'decorating_ctx'): "
+                  f"the trigger's expression strings are then evaluated against the other file's globals", key=f"trigger_init {what} receiver", node=program.func(ti_uid), rel="eval.py")
+
     # R11.4 imports bind into the current scope only --------------------------------------------------------------------
     ctx.rule("R11.4", "import statements bind names only through the current scope (closure cell / global declaration aware)", floor=2)
     for h in ("ast_import", "ast_importfrom"):
